@@ -153,8 +153,133 @@ func EscapingMutatorCalls(fn *ssa.Function) []ssa.Instruction {
 	return out
 }
 
-// RequirePure: the named functions contain no escaping store.
+// rootParam returns the parameter of the enclosing function whose caller-visible memory
+// v points into (nil if v is local to the function).
+func rootParam(v ssa.Value) *ssa.Parameter {
+	root, crossed := paramRooted(v)
+	switch r := root.(type) {
+	case *ssa.Parameter:
+		switch r.Type().Underlying().(type) {
+		case *types.Pointer, *types.Slice, *types.Map:
+			return r
+		}
+		if crossed {
+			return r
+		}
+	case *ssa.Alloc:
+		if p := spilledParam(r); p != nil && crossed {
+			return p
+		}
+	}
+	return nil
+}
+
+func sharesMemory(t types.Type) bool {
+	switch t.Underlying().(type) {
+	case *types.Pointer, *types.Slice, *types.Map:
+		return true
+	}
+	return false
+}
+
+type mutWitness struct {
+	At   ssa.Instruction
+	What string
+}
+
+// mutatedParams: for a function with a body, the parameters (by index in fn.Params,
+// receiver first) through which the function — or a statically resolved callee it hands
+// them to, to a bounded depth — may write memory its caller can see.
+func mutatedParams(fn *ssa.Function, memo map[*ssa.Function]map[int]mutWitness, depth int) map[int]mutWitness {
+	if m, ok := memo[fn]; ok {
+		return m
+	}
+	out := map[int]mutWitness{}
+	memo[fn] = out // cycles: the partial answer
+	if fn.Blocks == nil || depth <= 0 {
+		return out
+	}
+	idx := func(p *ssa.Parameter) int {
+		for i, q := range fn.Params {
+			if q == p {
+				return i
+			}
+		}
+		return -1
+	}
+	note := func(p *ssa.Parameter, at ssa.Instruction, what string) {
+		if i := idx(p); i >= 0 {
+			if _, seen := out[i]; !seen {
+				out[i] = mutWitness{at, what}
+			}
+		}
+	}
+	for _, e := range EscapingStores(fn) {
+		if p := rootParam(e.At.Addr); p != nil {
+			note(p, e.At, "store to "+trunc(e.Path, 80))
+		}
+	}
+	ir.EachInstr(fn, func(in ssa.Instruction) {
+		call := ir.CallOf(in)
+		if call == nil {
+			return
+		}
+		if inPlaceMutator(ir.CalleeName(call)) && len(call.Args) > 0 {
+			a := call.Args[0]
+			if mi, ok := a.(*ssa.MakeInterface); ok {
+				a = mi.X
+			}
+			if p := rootParam(a); p != nil {
+				note(p, in, "in-place "+ir.CalleeName(call))
+			}
+			return
+		}
+		callee := call.StaticCallee()
+		if callee == nil || callee.Blocks == nil {
+			return
+		}
+		sub := mutatedParams(callee, memo, depth-1)
+		for i, a := range call.Args {
+			w, mut := sub[i]
+			if !mut || !sharesMemory(a.Type()) {
+				continue
+			}
+			if p := rootParam(a); p != nil {
+				note(p, in, "passed to "+ir.StaticName(callee)+", which does "+w.What)
+			}
+		}
+	})
+	return out
+}
+
+// RequirePure: the named functions contain no escaping store, directly or through a
+// statically resolved callee that is handed caller-visible memory.
 func (c *Ctx) RequirePure(rule string, names ...string) {
+	memo := map[*ssa.Function]map[int]mutWitness{}
+	for _, n := range names {
+		if fn := c.Fn(n); fn != nil {
+			ir.EachInstr(fn, func(in ssa.Instruction) {
+				call := ir.CallOf(in)
+				if call == nil {
+					return
+				}
+				callee := call.StaticCallee()
+				if callee == nil || callee.Blocks == nil {
+					return
+				}
+				sub := mutatedParams(callee, memo, 6)
+				for i, a := range call.Args {
+					if w, mut := sub[i]; mut && sharesMemory(a.Type()) && rootParam(a) != nil {
+						c.Fail(rule+"/"+n+"/callee-writes="+shortNames([]string{ir.StaticName(callee)}), c.P.InstrPos(in), "the function hands memory shared with its caller ("+trunc(ir.Desc(a), 90)+") to "+ir.StaticName(callee)+", which does "+w.What)
+					}
+				}
+			})
+		}
+	}
+	c.requirePureLocal(rule, names...)
+}
+
+func (c *Ctx) requirePureLocal(rule string, names ...string) {
 	for _, n := range names {
 		fn := c.Fn(n)
 		if fn == nil {
